@@ -22,9 +22,18 @@ ROOT = os.path.dirname(os.path.dirname(os.path.abspath(__file__)))
 COQ = os.path.join(ROOT, "coq")
 OUT = os.path.join(ROOT, "out")
 CACHE = os.path.join(ROOT, ".cache")
-TARGET = os.path.join(CACHE, "target")
+# The code under test is /repo. For developing the checks against seeded changes without
+# disturbing /repo, VERIF_REPO may name another checkout: the harness is then built from a copy
+# of harness/ whose path dependency points there, into its own target directory.
+REPO = os.path.realpath(os.environ.get("VERIF_REPO", "/repo"))
+if REPO == "/repo":
+    TARGET = os.path.join(CACHE, "target")
+    HARNESS_DIR = os.path.join(ROOT, "harness")
+else:
+    _tag = "alt-" + re.sub(r"[^A-Za-z0-9]+", "_", REPO).strip("_")
+    TARGET = os.path.join(CACHE, _tag, "target")
+    HARNESS_DIR = os.path.join(CACHE, _tag, "harness")
 HARNESS_BIN = os.path.join(TARGET, "debug", "tarpc-verif-harness")
-HARNESS_DIR = os.path.join(ROOT, "harness")
 GUARD = "tarpc_verif"
 JOBS = int(os.environ.get("VERIF_JOBS", "16"))
 
@@ -177,7 +186,26 @@ def coqchk(pid, timeout=1500):
 
 # ------------------------------------------------------------------------------------ Rust
 
+def _sync_alt_harness():
+    src = os.path.join(ROOT, "harness")
+    os.makedirs(HARNESS_DIR, exist_ok=True)
+    for d, _, files in os.walk(src):
+        if "/target" in d:
+            continue
+        rel = os.path.relpath(d, src)
+        os.makedirs(os.path.join(HARNESS_DIR, rel), exist_ok=True)
+        for f in files:
+            data = open(os.path.join(d, f), "rb").read()
+            if f == "Cargo.toml":
+                data = data.replace(b'path = "/repo/tarpc"', f'path = "{REPO}/tarpc"'.encode())
+            dst = os.path.join(HARNESS_DIR, rel, f)
+            if not os.path.exists(dst) or open(dst, "rb").read() != data:
+                open(dst, "wb").write(data)
+
+
 def cargo_build():
+    if REPO != "/repo":
+        _sync_alt_harness()
     env = dict(os.environ)
     env["CARGO_TARGET_DIR"] = TARGET
     env["RUSTFLAGS"] = f"--cfg {GUARD}"
